@@ -4,6 +4,7 @@ cd /verif
 echo "| seed | property | result on $(git -C /repo rev-parse --short HEAD) |" > /tmp/seed_results.md; echo "|---|---|---|" >> /tmp/seed_results.md
 for d in seeded/*/; do
   s=$(basename $d); id=$(python3 -c "import json;print(json.load(open('$d/meta.json'))['property'])")
+  if [ -n "$SKIP" ] && echo " $SKIP " | grep -q " $id "; then echo "| $s | $id | skipped (check currently being repaired) |" | tee -a /tmp/seed_results.md; continue; fi
   out=$(tools/seed_test.sh $d/patch.diff $id 2>&1)
   if echo "$out" | grep -q "patch does not apply"; then r="PATCH DOES NOT APPLY (needs rebase)";
   elif echo "$out" | grep -q "^VIOLATION.*no-failing-input-found" && ! echo "$out" | grep "^VIOLATION" | grep -qv "no-failing-input-found"; then r="VIOLATION no-failing-input-found";
